@@ -653,6 +653,30 @@ Proof.
   rewrite charged_cap in * by auto. repeat split; auto. rewrite B. lia.
 Qed.
 
+(* the penalty rule of the checked tree, pinned (C13-3 is repaired: the penalty is capped at what matured).  A tree that
+   refuses instead makes this and [unbond_pays_on_tree] fail to compile. *)
+Theorem tree_penalty_capped : Gen_OracleSlash.unbond_penalty_capped = true.
+Proof. reflexivity. Qed.
+
+(* hence, on the checked tree, with no condition on the balance: the withdrawal is accepted, the oracle receives
+   max(0, matured - penalty), exactly min(penalty, matured) is burned, the delegate address ends empty, the record and
+   both index entries are deleted, a second withdrawal fails *)
+Theorem unbond_pays_on_tree : forall s a r, recs s a = Some r -> ~ In a (proposal s) -> o_online r = false ->
+  (forall u, In u (ubds s) -> u_orc u <> a) -> 0 <= bal_d s a ->
+  exists s', step s (Unbond a) = Ok s' /\
+    bal_o s' a = bal_o s a + Z.max 0 (bal_d s a - slash_amount r (p_fraction (prm s))) /\
+    burned s' = burned s + Z.min (slash_amount r (p_fraction (prm s))) (bal_d s a) /\
+    bal_d s' a = 0 /\ recs s' a = None /\ by_bridger s' (o_bridger r) = None /\ by_ext s' (o_ext r) = None /\
+    (forall s'', step s' (Unbond a) <> Ok s'').
+Proof.
+  intros s a r Hr Hp Off HU HB. cbn [step]. unfold unbond. rewrite tree_unbond_rule, tree_penalty_capped.
+  destruct (unbond_capped_pays false s a r Hr Hp Off (has_ubd_false a (o_val r) (ubds s) HU) HB)
+    as (s' & U & A & B & C & D & E & F & Tw).
+  exists s'. split; [exact U|]. split; [exact A|]. split; [exact B|]. split; [exact C|]. split; [exact D|].
+  split; [exact E|]. split; [exact F|].
+  intros s'' X. cbn [step] in X. unfold unbond in X. apply (Tw _ _ _ X).
+Qed.
+
 (* the refusing variant (the tree before the C13-3 patch), whatever the tree says: refused when the balance is smaller
    than the penalty computed from the recorded stake *)
 Theorem unbond_refusing_variant_refuses : forall ne s a r, recs s a = Some r ->
